@@ -1,13 +1,14 @@
 package concchk
 
 import (
-	"os"
 	"testing"
 	"time"
+
+	"verif/harness/kit"
 )
 
-// TestReproC40PauseBeforeRun is not part of the C40 check (the driver runs
-// ^TestC40 only; set VERIF_C40_REPRO=1 and build with -race to run it). It
+// TestC40FixedPauseBeforeRun is the fixed regression input of a repaired
+// finding (KNOWN_FINDINGS.txt). It
 // reproduces deterministically what the concurrent clients met once when a
 // /api/tick arrived while Run() was starting: SerialEngine.Pause() returns at
 // once while no run loop is active; a Run() that starts while the pauser is
@@ -16,10 +17,13 @@ import (
 // the lock-free event queue while the pauser pushes to it. The race detector
 // reports unsafeEventQueue.Push <-> unsafeEventQueue.Len. (With an empty queue
 // that Run() would also return nil although the engine is paused.)
-func TestReproC40PauseBeforeRun(t *testing.T) {
-	if os.Getenv("VERIF_C40_REPRO") == "" {
-		t.Skip("reproduction of a reported finding; not part of the check")
+func TestC40FixedPauseBeforeRun(t *testing.T) {
+	if kit.ReplayMode() {
+		t.Skip()
 	}
+	s := kit.Begin(t, "C40", "fixed-pause-before-run", "fixed regression input: Pause() with no run loop active, Run() entering inside the pauser's Pause()...Continue() bracket while the pauser schedules an event (what Monitor.tick does); judged by the race detector (unsafeEventQueue.Push <-> Len) and by completion of the run")
+	defer s.End()
+	defer s.Note("pause-before-run", true, "fixed-regression")
 	c := c40ConcPresets[0]
 	c.SlowEvery = 0
 	sim, err := c40Build(c, "base", t.TempDir())
